@@ -259,6 +259,18 @@ func jobC02(c *rt.Ctx) {
 			rs2, re2 := rk.Sign(nil, msg, opts)
 			check("record-scrubbed", rs2, re2)
 		}
+		// GenerateKey -> the caller appends to the returned public key (an envelope pub || tag) -> Sign
+		// with the private key of the same call
+		if k.si%8 == 4 {
+			gpub, gpriv, gerr := GenerateKey(bytes.NewReader(append([]byte{}, seed...)))
+			if gerr == nil {
+				_ = append(gpub, bytes.Repeat([]byte{0xEE}, 29)...)
+				_ = append(gpub[:len(gpub):len(gpub)], 1) // (a capacity-clamped append never writes in place)
+				gs, ge := gpriv.Sign(nil, msg, opts)
+				c.Class("style/record")
+				check("generatekey-envelope", gs, ge)
+			}
+		}
 		if c.WantSample() && k.vi > 0 {
 			c.Sample(map[string]interface{}{"seed": ref.Hex(seed), "msg_len": len(msg), "variant": sv.v.String(), "ctx_len": len(sv.ctx), "signature": ref.Hex(want)})
 		}
@@ -605,12 +617,11 @@ func implBatchReader(entries []triple, vs variantSpec, zip bool, rd io.Reader) (
 			panicked = r
 		}
 	}()
-	pubs := make([]PublicKey, len(entries))
-	msgs := make([][]byte, len(entries))
-	sigs := make([][]byte, len(entries))
-	for i, e := range entries {
-		pubs[i], msgs[i], sigs[i] = e.key, e.msg, e.sig
-	}
+	pubs, msgs, sigs, damage := layoutBatch(entries)
 	all, valid, err = VerifyBatch(rd, pubs, msgs, sigs, vs.opts(zip))
+	if d := damage(); d != "" && panicked == nil {
+		panicked = "VerifyBatch modified caller memory: " + d
+	}
+	valid = ownResult(valid)
 	return
 }
